@@ -10,7 +10,7 @@ namespace Sema.C12
 
 /-- pcs at which the thread holds `shardLock` -/
 def holdsStore : PC → Bool
-  | .rqLookup _ | .rqSend _ | .rqMkdir _ | .rqOpen _ | .rqPut _ _ | .rqSpawn _ | .rqUnlockStore _ => true
+  | .rqLookup _ | .rqSend _ | .rqMkdir _ | .rqOpen _ | .rqPut _ _ | .rqSpawn _ | .rqUnlockStore _ | .rqLoadErr => true
   | .clMapDel _ | .clUnlockStore _ => true
   | .dlReaddir _ | .dlLookup _ _ | .dlLockW _ _ _ | .dlWWait _ _ _ | .dlNilCheck _ _ _ | .dlSend _ _ _
   | .dlClose _ _ _ | .dlSetNil _ _ _ | .dlUnlockW _ _ _ | .dlMapDel _ _ | .dlRemove _ _ | .dlUnlockStore => true
